@@ -410,7 +410,31 @@ fn limits_ops(a: &[&str]) -> String {
         _ => IOAccess::HeapSubstateUpdated { canonical_substate_key: key, old_size: old, new_size: new },
     };
     match m.process_io_access(&io) {
-        Ok(()) => "ok 0".into(),
+        Ok(()) => {
+            // the totals are only visible in the limit errors: probe each with an entry that certainly exceeds the limit
+            const P: usize = 1_000_000_000_000_000;
+            let t1 = match m.process_io_access(&IOAccess::TrackSubstateUpdated {
+                canonical_substate_key: ckey(32),
+                old_size: None,
+                new_size: Some(P),
+            }) {
+                Err(RuntimeError::SystemModuleError(SystemModuleError::TransactionLimitsError(
+                    TransactionLimitsError::TrackSubstateSizeExceeded { actual, .. },
+                ))) => (actual - 32 - P) as i128,
+                _ => -1,
+            };
+            let h1 = match m.process_io_access(&IOAccess::HeapSubstateUpdated {
+                canonical_substate_key: ckey(32),
+                old_size: None,
+                new_size: Some(P),
+            }) {
+                Err(RuntimeError::SystemModuleError(SystemModuleError::TransactionLimitsError(
+                    TransactionLimitsError::HeapSubstateSizeExceeded { actual, .. },
+                ))) => (actual - 32 - P) as i128,
+                _ => -1,
+            };
+            format!("ok {} {}", h1, t1)
+        }
         Err(RuntimeError::SystemModuleError(SystemModuleError::TransactionLimitsError(
             TransactionLimitsError::HeapSubstateSizeExceeded { actual, .. },
         ))) => format!("err heap {}", actual),
